@@ -1,15 +1,15 @@
 #!/bin/bash
 # confirm_mutants.sh <list of "Cnn:V" ...>: for each agent mutant: demo on clean tree (must pass), demo on changed tree (must fail),
-# baseline tests on the changed tree (84 stable must pass).  Results appended to /tmp/confirm.log
+# baseline tests on the changed tree (84 stable must pass).  Results appended to ${CONFLOG:-/tmp/confirm.log}
 for item in "$@"; do
-  P=${item%%:*}; V=${item##*:}; wt=/tmp/mut/$P; m=$wt/mutant/$V
-  git -C $wt checkout -q -- src; git -C $wt clean -fdq src/tests/fixtures 2>/dev/null
-  export TMPDIR=/tmp/mut/_tmp_$P$V; rm -rf $TMPDIR; mkdir -p $TMPDIR
+  P=${item%%:*}; V=${item##*:}; wt=${MUTROOT:-/tmp/mut}/$P; m=$wt/mutant/$V
+  git -C $wt checkout -q -- src; git -C $wt clean -fdxq src/tests/fixtures 2>/dev/null
+  export TMPDIR=/tmp/mut/_tmp_${P}${V}_$$; rm -rf $TMPDIR; mkdir -p $TMPDIR
   (cd $wt && PYTHONPATH=$wt/src timeout 900 /venv/bin/python mutant/$V/demo.py > $TMPDIR/demo_clean.log 2>&1); rc_clean=$?
-  git -C $wt apply $m/patch.diff || { echo "$P $V APPLY-FAILED" >> /tmp/confirm.log; continue; }
+  git -C $wt apply $m/patch.diff || { echo "$P $V APPLY-FAILED" >> ${CONFLOG:-/tmp/confirm.log}; continue; }
   (cd $wt && PYTHONPATH=$wt/src timeout 900 /venv/bin/python mutant/$V/demo.py > $TMPDIR/demo_mut.log 2>&1); rc_mut=$?
   bl=$(/verif/tools/baseline.sh $wt 2>&1 | grep -E "baseline:|MISSING" | tr '\n' ' ')
-  git -C $wt checkout -q -- src; git -C $wt clean -fdq src/tests/fixtures 2>/dev/null
-  echo "$P $V demo_clean_rc=$rc_clean demo_mutant_rc=$rc_mut $bl" >> /tmp/confirm.log
+  git -C $wt checkout -q -- src; git -C $wt clean -fdxq src/tests/fixtures 2>/dev/null
+  echo "$P $V demo_clean_rc=$rc_clean demo_mutant_rc=$rc_mut $bl" >> ${CONFLOG:-/tmp/confirm.log}
   rm -rf $TMPDIR
 done
